@@ -307,6 +307,24 @@ pub fn gen(tier: &str, seed: u64) -> Gen {
         }
     }
     fams.push(("division and remainder by computed zeros of either type (mixed arithmetic with a promoted operand)".to_string(), nd, true));
+    // the i64 extremes against -1, 0 and 1 under every arithmetic operator (the one quotient and the
+    // one remainder that overflow), written as variables, negated literals and computed values
+    let ext: Vec<Term> = vec![
+        var("vm", "-9223372036854775808"), int(9223372036854775807), bin("-", un("-", int(9223372036854775807)), int(1)),
+        var("vm1", "-9223372036854775807"), func("int", var("vm", "-9223372036854775808")),
+    ];
+    let unit: Vec<Term> = vec![un("-", int(1)), var("vn1", "-1"), int(1), int(0), bin("-", int(0), int(1)), int(2), un("-", int(2))];
+    let mut ne = 0;
+    for o in &["%", "/", "*", "+", "-", "<<", ">>"] {
+        for a in &ext {
+            for b in &unit {
+                cases.push(mk(&mut rng, bin(o, a.clone(), b.clone())));
+                cases.push(mk(&mut rng, bin(o, b.clone(), a.clone())));
+                ne += 2;
+            }
+        }
+    }
+    fams.push(("the i64 extremes against -1, 0, 1, 2 under every arithmetic operator, both orders".to_string(), ne, true));
     (cases, fams)
 }
 
